@@ -22,6 +22,8 @@ type DrvReply struct {
 	Sizes   []int     `json:"sizes,omitempty"`
 	TrailLF bool      `json:"trail_lf"`
 	Op      string    `json:"op"` // get, get-config, rpc
+	// BigKB > 0: the reply carries this many kilobytes of further content (added when the case runs)
+	BigKB int `json:"big_kb,omitempty"`
 }
 
 // DrvCase is a NETCONF session whose replies are checked end to end.
@@ -125,6 +127,12 @@ func genDrv(t *rapid.T) DrvCase {
 		c.Replies = append(c.Replies, r)
 	}
 
+	// now and then a reply of hundreds of kilobytes up to megabytes (a whole configuration)
+	if rapid.IntRange(0, 29).Draw(t, "bigReply") == 0 {
+		c.Replies[rapid.IntRange(0, len(c.Replies)-1).Draw(t, "bigAt")].BigKB = rapid.SampledFrom([]int{300, 1100, 2100}).Draw(t, "bigKB")
+		c.Plan, c.DelaysNS, c.ReadSize = nil, nil, 65535
+	}
+
 	return c
 }
 
@@ -152,6 +160,29 @@ func OpenNetconf(srv *sim.NCServer, c *DrvCase, budget time.Duration) (*netconf.
 }
 
 func runDrv(c DrvCase) ev.Verdict {
+	// big replies: the padding is added here, not stored in the case
+	reps := append([]DrvReply(nil), c.Replies...)
+
+	for i := range reps {
+		if reps[i].BigKB == 0 {
+			continue
+		}
+
+		pad := "<pad>" + strings.Repeat("0123456789abcde\n", reps[i].BigKB*64) + "</pad>"
+
+		for _, f := range []*string{&reps[i].Reply.Payload, &reps[i].Reply.Expected} {
+			j := strings.LastIndex(*f, "</")
+			*f = (*f)[:j] + pad + (*f)[j:]
+		}
+
+		if c.Version == "1.1" {
+			n := len(reps[i].Reply.Payload)
+			reps[i].Sizes = []int{n / 2, n - n/2}
+		}
+	}
+
+	c.Replies = reps
+
 	caps := []string{sim.Cap10}
 	if c.Version == "1.1" {
 		caps = []string{sim.Cap10, sim.Cap11}
@@ -181,6 +212,13 @@ func runDrv(c DrvCase) ev.Verdict {
 	}
 
 	budget := time.Duration(total) * 30 * time.Duration(c.ReadDelayNS)
+
+	for _, r := range c.Replies {
+		if r.BigKB > 0 {
+			// whole-stream reads of 64 kB: a few dozen reads, seconds of virtual time at most
+			budget = 10 * time.Second
+		}
+	}
 
 	d, pipe, err := OpenNetconf(srv, &c, budget)
 	if err != nil {
